@@ -29,6 +29,17 @@ copies deleted afterwards.  Caught = VIOLATION with a shrunk replay (3-6 command
   - nbest_ascending: `los = result[-1]` dropped after `pop()`: NOT a semantic change (a stale, larger
     `los` only makes the loop insort-and-pop elements it could have skipped) - check stays green, as
     the property demands; likewise changing which algorithm the heuristics choose changes nothing.
+
+Sorts IN FLIGHT together (builder wt_strong7): the result of FieldIndex.sort is a lazy generator, so whatever an
+algorithm keeps outside its own frame is shared by every sort of that index that has been created and not yet
+read to the end.  `lsort h <sort arguments>` only creates the result, `pull h k|all` reads k more ids of it; half
+of the cases carry 1-3 groups of 2-3 such sorts (same request again 36%, all algorithms forced and auto-selected)
+read alternately / one id first and the rest after another sort was created and read / in reverse creation
+order; the answer assembled from all pulls is compared with the model's answer for that request alone (a sort
+is a value there), and the docids of a caught Unsortable are read again at the end of the session.
+  seeded C18_G  scan_forward keeps ONE volatile working set on the index instead of a copy per call
+                                              MISSED (by C18; C07 never had two sorts open) - now caught by C07
+  M07m  _timsort keeps its list of missing docids on the index (cleared per call)                    caught
 """
 from lib.core import exc_name, idset
 
@@ -51,6 +62,11 @@ RULE = ("each case: an index built by a 5-80 op history over docids 0..15 + extr
         "aimed at every breakpoint of fwscan_wins / nbest_ascending_wins / the reverse rule (ratios "
         "256..65536/65536, 768 documents, limit 300, 9%) +-1, limit in {None,1,n-1,n,n+1,huge} plus invalid "
         "0/-1, all seven sort_type values x reverse x raise_unsortable (defaults sometimes left implicit). "
+        "50% of the cases: 1-3 groups of 2-3 sorts IN FLIGHT together (lsort = create only, pull = read k more ids; "
+        "read alternately, one id first and the rest after another sort, reverse creation order; the same request "
+        "again in 36% of the groups; quick seed 0: 356 groups in 320 cases, 270 sorts started while another one was "
+        "partly read, of these two forward scans 62, two n-best 23, two timsorts 45; in-flight sorts by algorithm: "
+        "fwscan 114 auto + 116 forced, n-best 88 + 55, timsort 43 + 149). "
         "non-trivial = some sort returned >= 3 ids containing a tie and some sort raised Unsortable")
 LEVEL_TEXT = ("Lean 4 proofs for every index history, every list of distinct docids, every limit, both "
               "directions, both raise_unsortable settings and EVERY algorithm that can run with the flags "
